@@ -441,6 +441,35 @@ func c15RawClient(res *lp.Result, s c15Scn) {
 		return
 	}
 	rng := lp.NewRng(*seed*1000 + uint64(scenarioIndex()))
+	// for the correspondence with the connection model (Cql/Conn.lean): the segment payloads as sent, the frames as delivered
+	var modelItems, delivered []string
+	sendSeg := func(selfContained bool, payload []byte) {
+		tag := "mp:"
+		if selfContained {
+			tag = "sc:"
+		}
+		modelItems = append(modelItems, tag+hx(payload))
+		conn.Write(rawSegment(lz, selfContained, payload))
+	}
+	defer func() {
+		if len(modelItems) == 0 {
+			return
+		}
+		answers, err := lp.Ask(*driverPath, []string{"conn recv " + strings.Join(modelItems, " ")})
+		if err != nil || len(answers) != 1 {
+			res.Add(lp.Finding{Kind: "disagreement", What: "driver failure on conn recv", Input: id})
+			return
+		}
+		want := strings.Join(delivered, " | ")
+		if want == "" {
+			want = "-"
+		}
+		if answers[0] != want {
+			res.Add(lp.Finding{Kind: "disagreement", What: "frames delivered by the server connection differ from the connection model", Input: id,
+				Impl: trunc(firstDiff(want, answers[0])), Model: trunc(answers[0])})
+		}
+		res.Count("model/conn-recv")
+	}()
 	expectFrames := func(what string, want []*frame.Frame) bool {
 		for k, w := range want {
 			var got *frame.Frame
@@ -449,6 +478,7 @@ func c15RawClient(res *lp.Result, s c15Scn) {
 				viol(what+": envelope does not reach the server", fmt.Sprintf("envelope %d of %d: %v", k+1, len(want), err), wireText(w))
 				return false
 			}
+			delivered = append(delivered, show.Frame(got))
 			res.Count("frames/raw-to-server")
 			if t := wireText(got); t != wireText(w) {
 				viol(what+": envelope received by the server differs from what was sent", t, wireText(w))
@@ -469,7 +499,7 @@ func c15RawClient(res *lp.Result, s c15Scn) {
 		if len(payload) > 131071 {
 			continue
 		}
-		conn.Write(rawSegment(lz, true, payload))
+		sendSeg(true, payload)
 		if !expectFrames(fmt.Sprintf("%d envelopes in one self-contained segment", k), fs) {
 			return
 		}
@@ -481,10 +511,10 @@ func c15RawClient(res *lp.Result, s c15Scn) {
 	for _, parts := range c15Splits(len(env), s.variant, rng) {
 		off := 0
 		for _, p := range parts {
-			conn.Write(rawSegment(lz, false, env[off:off+p]))
+			sendSeg(false, env[off:off+p])
 			off += p
 		}
-		if !expectFrames(fmt.Sprintf("envelope of %d bytes split over %d segments (first part %d bytes)", len(env), len(parts), parts[0]), []*frame.Frame{f}) {
+		if !expectFrames(fmt.Sprintf("envelope split over %d segments (first part %s)", len(parts), firstPartClass(parts[0])), []*frame.Frame{f}) {
 			return
 		}
 	}
@@ -656,7 +686,7 @@ func c15RawServer(res *lp.Result, s c15Scn) {
 		conn.Write(rawSegment(lz, false, env[off:off+p]))
 		off += p
 	}
-	if !expect(fmt.Sprintf("envelope of %d bytes split over %d segments (first part %d bytes)", len(env), len(parts), parts[0]), inflight[1], big) {
+	if !expect(fmt.Sprintf("envelope split over %d segments (first part %s)", len(parts), firstPartClass(parts[0])), inflight[1], big) {
 		return
 	}
 	// the connection is still usable afterwards
@@ -673,5 +703,16 @@ func c15RawServer(res *lp.Result, s c15Scn) {
 	sup := frame.NewFrame(s.version, 450, &message.Supported{Options: map[string][]string{"CQL_VERSION": {"3.4.5"}}})
 	conn.Write(rawSegment(lz, true, encodeEnvelope(sup)))
 	expect("response after a multi-segment response", r, sup)
-	_ = strings.TrimSpace
+}
+
+func firstPartClass(n int) string {
+	switch {
+	case n < 9:
+		return "shorter than the envelope header"
+	case n == 9:
+		return "exactly the envelope header"
+	case n == 131071:
+		return "a full segment"
+	}
+	return "of intermediate size"
 }
